@@ -174,6 +174,41 @@ var gfFuncs = []gfFunc{
 			{Match: "k.bankKeeper.SendCoinsFromModuleToAccount", Tag: "fund-gauge", Args: []string{"spcTokens"}, Fallible: "ok_fund"},
 			{Match: "paymentInfo.SpaceUsed", Tag: "plan-used-add", Args: []string{"$rhs"}},
 			{Match: "k.SetStoragePaymentInfo", Tag: "set-plan"}}},
+	// ---- x/storage/keeper/msg_server_buy_storage.go: the whole purchase (C04)
+	{Group: "goprice", Pkg: "x/storage/keeper", Name: "validateBuy", Coq: "gen_validateBuy",
+		Inputs: []gfInput{{"days", "days", "Z"}, {"bytesIn", "bytes_in", "Z"}, {"denomIn != \"ujkl\"", "not_ujkl", "bool"}}},
+	{Group: "goprice", Pkg: "x/storage/keeper", Recv: "Keeper", Name: "UpgradeStorage", Coq: "gen_UpgradeStorage",
+		Inputs: []gfInput{{"bytes", "bytes", "Z"}, {"duration", "duration", "Z"}, {"storageCost", "cost", "Z"},
+			{"payInfo.End", "plan_end", "Z"}, {"ctx.BlockTime()", "now", "Z"}, {"payInfo.SpaceAvailable", "plan_avail", "Z"}, {"payInfo.SpaceUsed", "plan_used", "Z"},
+			{"k.GetParams(ctx).PricePerTbPerMonth", "ppt", "Z"}, {"k.GetJklPrice(ctx)", "jkl", "Z"}}},
+	{Group: "goprice", Pkg: "x/storage/keeper", Recv: "msgServer", Name: "BuyStorage", Coq: "gen_BuyStorage",
+		Inputs: []gfInput{{"for_resolves", "for_resolves", "bool"}, {"msg.DurationDays", "days", "Z"}, {"msg.Bytes", "bytes_in", "Z"}, {"msg.PaymentDenom != \"ujkl\"", "not_ujkl", "bool"},
+			{"for_ok", "for_ok", "bool"}, {"accExists", "acc_exists", "bool"},
+			{"found", "found", "bool"}, {"payInfo.SpaceUsed", "plan_used", "Z"}, {"payInfo.SpaceAvailable", "plan_avail", "Z"}, {"payInfo.End", "plan_end", "Z"}, {"ctx.BlockTime()", "now", "Z"},
+			{"k.GetParams(ctx).PricePerTbPerMonth", "ppt", "Z"}, {"k.GetJklPrice(ctx)", "jkl", "Z"},
+			{"ref_resolves", "ref_resolves", "bool"}, {"creator_ok", "creator_ok", "bool"}, {"refAcc.Equals(creatorAcc)", "ref_is_creator", "bool"},
+			{"params.PolRatio", "polr", "Z"}, {"params.ReferralCommission", "refc", "Z"},
+			{"ok_charge", "ok_charge", "bool"}, {"gauge_acc_ok", "gauge_acc_ok", "bool"}, {"ok_fund", "ok_fund", "bool"}, {"pol_acc_ok", "pol_acc_ok", "bool"},
+			{"ok_pol", "ok_pol", "bool"}, {"ok_ref", "ok_ref", "bool"}, {"ok_fees", "ok_fees", "bool"}},
+		ReadStmts: []string{`ctx := sdk.UnwrapSDKContext(goCtx)`, `params := k.GetParams(ctx)`,
+			`forAddress, err := k.rnsKeeper.Resolve(ctx, msg.ForAddress) => err=for_resolves`,
+			`forAddr, err := sdk.AccAddressFromBech32(msg.ForAddress) => err=for_ok`,
+			`accExists := k.accountKeeper.HasAccount(ctx, forAddr)`,
+			`payInfo, found := k.GetStoragePaymentInfo(ctx, forAddress.String())`,
+			`refAcc, err := k.rnsKeeper.Resolve(ctx, msg.Referral) => err=ref_resolves`,
+			`creatorAcc, cerr := sdk.AccAddressFromBech32(msg.Creator) => cerr=creator_ok`,
+			`add, err := sdk.AccAddressFromBech32(msg.Creator) => err=creator_ok`,
+			`acc, err := types.GetGaugeAccount(gauge) => err=gauge_acc_ok`,
+			`polAcc, err := allTypes.GetPOLAccount() => err=pol_acc_ok`},
+		Ignore: append([]string{`^defer telemetry\.`, `^var spi types\.StoragePaymentInfo$`, `^spi = types\.StoragePaymentInfo\{`, `^fmt\.Printf\(`, `^ctx\.EventManager\(\)\.EmitEvent\(`}, gfLogging...),
+		Effects: []gfEffect{{Match: "k.accountKeeper.SetAccount", Tag: "new-account"},
+			{Match: "k.bankKeeper.SendCoinsFromAccountToModule", Tag: "charge-creator", Args: []string{"toPay"}, Fallible: "ok_charge"},
+			{Match: "k.SetStoragePaymentInfo", Tag: "set-plan", Args: []string{"bytes", "spaceUsed"}},
+			{Match: "k.NewGauge", Tag: "new-gauge", Args: []string{"spcTokens"}},
+			{Match: "k.bankKeeper.SendCoinsFromModuleToAccount(ctx, types.ModuleName, acc, spcTokens)", Tag: "fund-gauge", Args: []string{"spcTokens"}, Fallible: "ok_fund"},
+			{Match: "k.bankKeeper.SendCoinsFromModuleToAccount(ctx, types.ModuleName, polAcc, polTokens)", Tag: "to-pol", Args: []string{"polTokens"}, Fallible: "ok_pol"},
+			{Match: "k.bankKeeper.SendCoinsFromModuleToAccount(ctx, types.ModuleName, refAcc, refTokens)", Tag: "to-referrer", Args: []string{"refTokens"}, Fallible: "ok_ref"},
+			{Match: "k.AddCollectedFees", Tag: "to-stakers", Args: []string{"refTokens"}, Fallible: "ok_fees"}}},
 	// ---- x/storage/keeper/rewards.go: pullTokensFromGauges, per gauge and per coin of a gauge (C12, C05)
 	{Group: "gogauge", Pkg: "x/storage/keeper", Recv: "Keeper", Name: "pullTokensFromGauges", Coq: "gen_pullGauge",
 		Path: []string{"funclit:k.IterateGauges"},
@@ -244,6 +279,8 @@ type gfTr struct {
 	size     int
 	unitKind string // "" (the whole function), "funclit" or "range"
 	resKeep  []bool // which results of the Go function are part of the translated result
+	named    []*types.Var // named results (a bare return returns their current values)
+	ends     []func() string // what falling off the end of the current statement list means (join points of ifs)
 }
 
 func gfNorm(s string) string { return strings.Join(strings.Fields(s), " ") }
@@ -442,6 +479,9 @@ func (t *gfTr) expr(e ast.Expr) ([]gfBind, string, string, error) {
 		if gfKind(info.TypeOf(x)) == "Coin" && len(x.Elts) == 1 {
 			return t.expr(x.Elts[0]) // sdk.Coins{c}: one coin, modelled by its amount
 		}
+		if gfKind(info.TypeOf(x)) == "Coin" && len(x.Elts) == 0 {
+			return nil, "0", "Z", nil // sdk.Coin{}: returned next to an error, never used
+		}
 	case *ast.SelectorExpr:
 		if v, ok := info.Uses[x.Sel].(*types.Var); ok && v.Pkg() != nil && v.Parent() == v.Pkg().Scope() {
 			if strings.HasSuffix(v.Type().String(), "errors.Error") || gfKind(v.Type()) == "err" {
@@ -509,7 +549,8 @@ func (t *gfTr) binary(x *ast.BinaryExpr) ([]gfBind, string, string, error) {
 			return binds, v, "bool", nil
 		}
 	}
-	if tl == "Z" && tr == "Z" && kl == "Z" && kr == "Z" {
+	intKind := func(k string) bool { return k == "Z" || k == "Time" }
+	if tl == "Z" && tr == "Z" && intKind(kl) && intKind(kr) {
 		switch x.Op {
 		case token.ADD:
 			return binds, "(i64add " + l + " " + r + ")", "Z", nil
@@ -560,7 +601,7 @@ func (t *gfTr) call(c *ast.CallExpr) ([]gfBind, string, string, error) {
 	info := t.pkg.TypesInfo
 	// conversions int64(x)
 	if tv, ok := info.Types[c.Fun]; ok && tv.IsType() {
-		if gfKind(tv.Type) == "Z" && len(c.Args) == 1 && gfKind(info.TypeOf(c.Args[0])) == "Z" {
+		if (gfKind(tv.Type) == "Z" || gfKind(tv.Type) == "Time") && len(c.Args) == 1 && (gfKind(info.TypeOf(c.Args[0])) == "Z" || gfKind(info.TypeOf(c.Args[0])) == "Time") {
 			return t.expr(c.Args[0])
 		}
 		return nil, "", "", t.errf(c, "conversion %s", t.src(c))
@@ -753,6 +794,14 @@ func (t *gfTr) callTranslated(c *ast.CallExpr, fn *types.Func, cfg *gfFunc) ([]g
 		if recvName != "" && strings.HasPrefix(text, recvName+".") {
 			text = recvText + text[len(recvName):]
 		}
+		// a read of the callee that mentions its parameters is the caller's read with the arguments put in
+		for i := 0; i < sig.Params().Len() && i < len(c.Args); i++ {
+			pn := sig.Params().At(i).Name()
+			if pn == "" || pn == "_" {
+				continue
+			}
+			text = regexp.MustCompile(`\b`+regexp.QuoteMeta(pn)+`\b`).ReplaceAllString(text, strings.ReplaceAll(t.src(c.Args[i]), "$", "$$"))
+		}
 		r, ok := t.reads[gfNorm(text)]
 		if !ok {
 			return nil, "", "", t.errf(c, "the callee %s reads %s, which the caller's configuration does not provide as %q", cfg.Name, in.Expr, text)
@@ -788,6 +837,14 @@ func (t *gfTr) effectFor(text string) *gfEffect {
 		}
 	}
 	return nil
+}
+
+// effectForCall: an effect configured for this very call (its whole source text) wins over one for its callee
+func (t *gfTr) effectForCall(c *ast.CallExpr) *gfEffect {
+	if ef := t.effectFor(t.src(c)); ef != nil {
+		return ef
+	}
+	return t.effectFor(t.src(c.Fun))
 }
 
 func (t *gfTr) emitEvent(ef *gfEffect, rhs string, at ast.Node) ([]gfBind, string, error) {
@@ -841,6 +898,9 @@ func (t *gfTr) seq(stmts []ast.Stmt) (string, error) {
 	t.size++
 	if t.size > 4000 {
 		return "", fmt.Errorf("%s: the translation grows too large (too many fall-through branches)", t.cfg.Name)
+	}
+	if len(stmts) == 0 && len(t.ends) > 0 {
+		return t.ends[len(t.ends)-1](), nil
 	}
 	if len(stmts) == 0 {
 		if len(t.resTy) != 0 {
@@ -923,6 +983,13 @@ func (t *gfTr) seq(stmts []ast.Stmt) (string, error) {
 			binds = append(binds, b...)
 			vals = append(vals, v)
 		}
+		if len(x.Results) == 0 && len(t.named) > 0 {
+			for i, rv := range t.named {
+				if i < len(t.resKeep) && t.resKeep[i] {
+					vals = append(vals, t.nameOf(rv))
+				}
+			}
+		}
 		if len(vals) != len(t.resTy) {
 			return "", t.errf(s, "return of %d values, the function has %d results", len(vals), len(t.resTy))
 		}
@@ -975,7 +1042,7 @@ func (t *gfTr) seq(stmts []ast.Stmt) (string, error) {
 		return "let " + v + " := " + op + " " + v + " 1 in\n" + r, err
 	case *ast.ExprStmt:
 		if c, ok := x.X.(*ast.CallExpr); ok {
-			if ef := t.effectFor(t.src(c.Fun)); ef != nil && ef.Fallible == "" {
+			if ef := t.effectForCall(c); ef != nil && ef.Fallible == "" {
 				_, ev, err := t.emitEvent(ef, "", s)
 				if err != nil {
 					return "", err
@@ -1006,7 +1073,111 @@ func (t *gfTr) seq(stmts []ast.Stmt) (string, error) {
 	return "", t.errf(s, "statement form %T (`%s`) is outside the translated fragment", s, text)
 }
 
+// gfExits: does the statement contain a return, continue, break or goto (outside function literals)?
+func gfExits(n ast.Node) bool {
+	if n == nil {
+		return false
+	}
+	found := false
+	ast.Inspect(n, func(m ast.Node) bool {
+		switch m.(type) {
+		case *ast.FuncLit:
+			return false
+		case *ast.ReturnStmt, *ast.BranchStmt:
+			found = true
+		}
+		return !found
+	})
+	return found
+}
+
+// assigned: the already-declared translated variables that the statements assign
+func (t *gfTr) assigned(before token.Pos, nodes ...ast.Node) []types.Object {
+	seen := map[types.Object]bool{}
+	var out []types.Object
+	add := func(e ast.Expr) {
+		if id, ok := e.(*ast.Ident); ok {
+			if o := t.pkg.TypesInfo.Uses[id]; o != nil {
+				if _, known := t.names[o]; known && !seen[o] && o.Pos() < before {
+					seen[o] = true
+					out = append(out, o)
+				}
+			}
+		}
+	}
+	for _, n := range nodes {
+		if n == nil {
+			continue
+		}
+		ast.Inspect(n, func(m ast.Node) bool {
+			switch x := m.(type) {
+			case *ast.AssignStmt:
+				for _, l := range x.Lhs {
+					add(l)
+				}
+			case *ast.IncDecStmt:
+				add(x.X)
+			}
+			return true
+		})
+	}
+	return out
+}
+
 func (t *gfTr) ifelse(cond ast.Expr, body []ast.Stmt, els ast.Stmt, rest []ast.Stmt) (string, error) {
+	// an `if` that cannot leave the function is a join point: both branches yield the variables they may have
+	// assigned (and the event list), and the rest of the function is translated once
+	var elsNode ast.Node
+	if els != nil {
+		elsNode = els
+	}
+	if len(rest) > 0 && !gfExits(&ast.BlockStmt{List: body}) && !gfExits(elsNode) {
+		binds, c, ty, err := t.expr(cond)
+		if err != nil {
+			return "", err
+		}
+		if ty != "bool" {
+			return "", t.errf(cond, "condition of type %s", ty)
+		}
+		vars := t.assigned(cond.Pos(), &ast.BlockStmt{List: body}, elsNode)
+		names := []string{}
+		for _, o := range vars {
+			names = append(names, t.nameOf(o))
+		}
+		if t.events {
+			names = append(names, "evs")
+		}
+		tuple := "tt"
+		pat := "_"
+		if len(names) == 1 {
+			tuple, pat = names[0], names[0]
+		} else if len(names) > 1 {
+			tuple = "(" + strings.Join(names, ", ") + ")"
+			pat = "'" + tuple
+		}
+		t.ends = append(t.ends, func() string { return "GVal " + tuple })
+		th, err := t.seq(body)
+		var el string
+		if err == nil {
+			var elseStmts []ast.Stmt
+			switch e := els.(type) {
+			case *ast.BlockStmt:
+				elseStmts = e.List
+			case *ast.IfStmt:
+				elseStmts = []ast.Stmt{e}
+			}
+			el, err = t.seq(elseStmts)
+		}
+		t.ends = t.ends[:len(t.ends)-1]
+		if err != nil {
+			return "", err
+		}
+		r, err := t.seq(rest)
+		if err != nil {
+			return "", err
+		}
+		return gfWrap(binds, "glet "+pat+" := (if "+c+" then (\n"+th+"\n) else (\n"+el+"\n)) in\n"+r), nil
+	}
 	// short-circuit operators at the top of a condition whose right side can panic are unfolded by expr();
 	binds, c, ty, err := t.expr(cond)
 	if err != nil {
@@ -1116,7 +1287,13 @@ func (t *gfTr) assign(x *ast.AssignStmt, rest []ast.Stmt) (string, error) {
 						return "", err
 					}
 					names := []string{}
-					for _, l := range x.Lhs {
+					res := fn.Type().(*types.Signature).Results()
+					for i, l := range x.Lhs {
+						switch gfKind(res.At(i).Type()) {
+						case "Z", "Dec", "Int", "bool", "err", "Coin", "Time":
+						default:
+							continue // a result the callee's translation drops
+						}
 						id, ok := l.(*ast.Ident)
 						if !ok {
 							return "", t.errf(x, "tuple assignment to a non-variable")
@@ -1173,7 +1350,7 @@ func (t *gfTr) assign(x *ast.AssignStmt, rest []ast.Stmt) (string, error) {
 		return t.seq(rest)
 	}
 	if c, ok := x.Rhs[0].(*ast.CallExpr); ok {
-		if ef := t.effectFor(t.src(c.Fun)); ef != nil && ef.Fallible == "" && gfKind(o.Type()) == "opaque" {
+		if ef := t.effectForCall(c); ef != nil && ef.Fallible == "" && gfKind(o.Type()) == "opaque" {
 			_, ev, err := t.emitEvent(ef, "", x)
 			if err != nil {
 				return "", err
@@ -1184,7 +1361,7 @@ func (t *gfTr) assign(x *ast.AssignStmt, rest []ast.Stmt) (string, error) {
 	}
 	// err := fallibleEffect(...)
 	if c, ok := x.Rhs[0].(*ast.CallExpr); ok {
-		if ef := t.effectFor(t.src(c.Fun)); ef != nil && ef.Fallible != "" {
+		if ef := t.effectForCall(c); ef != nil && ef.Fallible != "" {
 			in, ok := t.reads[ef.Fallible]
 			if !ok {
 				return "", t.errf(x, "the outcome %s of the effect is not an input", ef.Fallible)
@@ -1199,6 +1376,18 @@ func (t *gfTr) assign(x *ast.AssignStmt, rest []ast.Stmt) (string, error) {
 		}
 	}
 	k := gfKind(o.Type())
+	if k == "opaque" {
+		hasCall := false
+		ast.Inspect(x.Rhs[0], func(n ast.Node) bool {
+			if _, ok := n.(*ast.CallExpr); ok {
+				hasCall = true
+			}
+			return true
+		})
+		if !hasCall {
+			return t.seq(rest) // a string or record copied around: nothing the translation models
+		}
+	}
 	if k == "opaque" || k == "nil" {
 		return "", t.errf(x, "variable %s of type %s is outside the fragment", id.Name, o.Type())
 	}
@@ -1328,7 +1517,7 @@ func genGoFuncs(c *Ctx, group string) (string, string, error) {
 			for i := 0; i < sig.Results().Len(); i++ {
 				k := gfKind(sig.Results().At(i).Type())
 				switch k {
-				case "Z", "Dec", "Int":
+				case "Z", "Dec", "Int", "Coin", "Time":
 					t.resTy = append(t.resTy, "Z")
 					t.resKeep = append(t.resKeep, true)
 				case "bool", "err":
@@ -1337,6 +1526,25 @@ func genGoFuncs(c *Ctx, group string) (string, string, error) {
 				default:
 					// a result the translation does not model (a response record): dropped from the result tuple
 					t.resKeep = append(t.resKeep, false)
+				}
+			}
+		}
+		namedPre := ""
+		if len(f.Path) == 0 {
+			for i := 0; i < sig.Results().Len(); i++ {
+				rv := sig.Results().At(i)
+				if rv.Name() == "" || rv.Name() == "_" {
+					continue
+				}
+				t.named = append(t.named, rv)
+				if i < len(t.resKeep) && t.resKeep[i] {
+					zero := "0"
+					if k := gfKind(rv.Type()); k == "bool" {
+						zero = "false"
+					} else if k == "err" {
+						zero = "true"
+					}
+					namedPre += "let " + t.nameOf(rv) + " := " + zero + " in\n"
 				}
 			}
 		}
@@ -1379,6 +1587,7 @@ func genGoFuncs(c *Ctx, group string) (string, string, error) {
 		if err != nil {
 			return err
 		}
+		body = namedPre + body
 		params := ""
 		for _, in := range f.Inputs {
 			params += " (" + in.Coq + " : " + in.Ty + ")"
